@@ -7,6 +7,7 @@ import (
 	"encoding/binary"
 	"encoding/json"
 	"fmt"
+	"github.com/dominant-strategies/go-quai/core/types"
 	"math/big"
 	"sort"
 	"strings"
@@ -120,6 +121,9 @@ func runAddr(seed uint64, n int, outDir string, replay string) {
 		lh := h.Hex(loc)
 		kinds := map[string]bool{}
 		nops := 10 + rc.Intn(30)
+		if rc.Chance(35) {
+			addrFilter(o, rc, ans)
+		}
 		for i := 0; i < nops; i++ {
 			ln := 20
 			if rc.Chance(35) {
@@ -391,4 +395,52 @@ func addrGrind(o *h.Out, rc *h.Rng, loc common.Location, ans func(string)) {
 			o.Violate("addr-create-out-of-scope", fmt.Sprintf("GrindContract returned %x for zone %v", a.Bytes(), loc))
 		}
 	}
+}
+
+// addrFilter: what a dominant chain hands down to a subordinate (Transactions.FilterToSub) for ETXs addressed all over a
+// 3 x 3 hierarchy and of every ETX type.  T2 against the model; T3: everything handed to a region is addressed into it,
+// everything handed to a zone is addressed to exactly that zone (region and zone), and nothing is handed to two zones.
+func addrFilter(o *h.Out, rc *h.Rng, ans func(string)) {
+	nodeCtx := rc.Intn(2) // prime or region
+	order := rc.Intn(nodeCtx + 1)
+	slice := common.Location{byte(rc.Intn(3)), byte(rc.Intn(3))}
+	var etxs types.Transactions
+	var items []string
+	for i, n := 0, 1+rc.Intn(12); i < n; i++ {
+		dl := common.Location{byte(rc.Intn(3)), byte(rc.Intn(3))}
+		if rc.Chance(35) {
+			dl = common.Location{byte(rc.Intn(3)), slice[1]} // same zone number, any region
+		}
+		b := rc.Bytes(20)
+		b[0] = dl[0]<<4 | dl[1]
+		to := common.BytesToAddress(b, dl)
+		typ := uint64(rc.Intn(7))
+		etxs = append(etxs, types.NewTx(&types.ExternalTx{OriginatingTxHash: cHash(rc), ETXIndex: uint16(i), Gas: 21000, To: &to, Value: big.NewInt(1), Sender: to, EtxType: typ}))
+		items = append(items, fmt.Sprintf("%s:%d", h.Hex(b), typ))
+	}
+	o.Op("filter %s %d %d %s", h.Hex(slice), nodeCtx, order, strings.Join(items, " "))
+	kept := etxs.FilterToSub(slice, nodeCtx, order)
+	var idx []string
+	for _, k := range kept {
+		idx = append(idx, fmt.Sprint(k.ETXIndex()))
+		dl := *k.To().Location()
+		switch {
+		case nodeCtx == common.PRIME_CTX && dl.Region() != slice.Region():
+			o.Violate("c16-etx-handed-to-foreign-region", fmt.Sprintf("prime hands region %d an ETX addressed to %v", slice.Region(), dl))
+		case nodeCtx == common.REGION_CTX && !dl.Equal(slice):
+			o.Violate("c16-etx-handed-to-foreign-zone", fmt.Sprintf("the region hands zone %v an ETX addressed to %v (%x): the zone would credit an address that is not its own", slice, dl, k.To().Bytes()))
+		}
+	}
+	ans(strings.Join(idx, ","))
+	if nodeCtx == common.REGION_CTX {
+		other := common.Location{slice[0], (slice[1] + 1) % 3}
+		for _, k := range etxs.FilterToSub(other, nodeCtx, order) {
+			for _, k2 := range kept {
+				if k.Hash() == k2.Hash() {
+					o.Violate("c16-etx-handed-to-two-zones", fmt.Sprintf("ETX %d is handed to zone %v and to zone %v", k.ETXIndex(), slice, other))
+				}
+			}
+		}
+	}
+	o.Count("filter")
 }
